@@ -75,6 +75,17 @@ def conflicts(name, names):
     return False
 
 
+def ref_cursor(cfg, regs):
+    """end of the most recently added register (where the next implicit one starts looking), or None"""
+    aw, dw, g = cfg["aw"], cfg["dw"], cfg["g"]
+    cursor = 0
+    for path, width, offset in regs:
+        size = 1 << clog2(max(1, -(-width // dw)))
+        start = offset * g // dw if offset is not None else -(-cursor // size) * size
+        cursor = start + size
+    return cursor
+
+
 def ref_layout(cfg, regs):
     """The property's sentence as a function: registers (path, width, offset) in insertion order ->
     sorted [(path, start, end)] or None when the layout must be rejected."""
@@ -103,7 +114,8 @@ def execute_factory(cfg):
         b = csr.Builder(addr_width=cfg["aw"], data_width=cfg["dw"], granularity=cfg["g"])
         regs = []                # reference: (path, width, offset) of accepted adds
         scopes, cms = [], []
-        frozen = False
+        frozen = False           # True / False / None = not determined by the property (after a failed as_memory_map)
+        unknown = False          # an argument outside the property's domain was ACCEPTED: layout no longer predicted
         first_reg = None
         err = None
         ratio = cfg["dw"] // cfg["g"]
@@ -111,41 +123,58 @@ def execute_factory(cfg):
             last = pos == len(history) - 1
             kind = op[0]
             raised = None
-            exp_ok = True
+            exp = "ok"           # "ok" must accept / "refuse" must raise / "either"
+            appended = None
             try:
-                if kind == "add":
-                    _, name, w, off = op
+                if kind in ("add", "addp"):
+                    if kind == "add":
+                        _, name, w, off = op
+                    else:
+                        _, w, off = op
+                        name = f"n{pos}"
                     valid_name = isinstance(name, str) and name != ""
-                    valid_off = off is None or (isinstance(off, int) and off >= 0 and off % ratio == 0)
-                    exp_ok = valid_name and valid_off and not frozen
+                    valid_off = off is None or (isinstance(off, int) and not isinstance(off, bool) and off >= 0 and off % ratio == 0)
+                    if not (valid_name and valid_off):
+                        exp = "either"      # invalid names / offsets: the property does not say what happens to them
+                    elif frozen is True:
+                        exp = "refuse"
+                    elif frozen is None:
+                        exp = "either"
+                    elif ref_layout(cfg, regs + [(tuple(scopes) + (name,), w, off)]) is None:
+                        exp = "either"      # the layout becomes invalid: rejected now or at as_memory_map()
                     r = reg(w)
                     b.add(name, r, offset=off)
                     if first_reg is None:
                         first_reg = r
-                    regs.append((tuple(scopes) + (name,), w, off))
-                elif kind == "addp":
-                    _, w, off = op
-                    exp_ok = not frozen
-                    b.add(f"n{pos}", reg(w), offset=off)
-                    regs.append((tuple(scopes) + (f"n{pos}",), w, off))
+                    appended = (tuple(scopes) + (name,), w, off)
+                    if not (valid_name and valid_off):
+                        unknown = True
                 elif kind == "add_notreg":
-                    exp_ok = False
+                    exp = "either"
                     b.add(op[1], object())
+                    unknown = True
                 elif kind == "add_same":
-                    exp_ok = False
+                    exp = "either"
                     if first_reg is None:
                         raise ValueError("nothing to repeat")      # letter not enabled: behaves like a refusal
                     b.add(op[1], first_reg)
+                    unknown = True
                 elif kind == "cluster":
-                    exp_ok = isinstance(op[1], str) and op[1] != ""
+                    valid = isinstance(op[1], str) and op[1] != ""
+                    exp = "ok" if valid else "either"
                     cm = b.Cluster(op[1])
                     cm.__enter__()
                     cms.append(cm); scopes.append(op[1])
+                    if not valid:
+                        unknown = True
                 elif kind == "index":
-                    exp_ok = isinstance(op[1], int) and op[1] >= 0
+                    valid = isinstance(op[1], int) and op[1] >= 0
+                    exp = "ok" if valid else "either"
                     cm = b.Index(op[1])
                     cm.__enter__()
                     cms.append(cm); scopes.append(op[1])
+                    if not valid:
+                        unknown = True
                 elif kind == "leave":
                     if cms:
                         cms.pop().__exit__(None, None, None)
@@ -164,8 +193,10 @@ def execute_factory(cfg):
                     b.freeze()
                     frozen = True
                 elif kind == "as_map":
-                    frozen = True
-                    exp_ok = ref_layout(cfg, regs) is not None
+                    want_now = ref_layout(cfg, regs)
+                    exp = "either" if unknown else ("ok" if want_now is not None else "refuse")
+                    # a successful as_memory_map() freezes; whether a failed one does is not stated
+                    frozen = True if (want_now is not None or frozen is True) else None
                     b.as_memory_map()
             except (ValueError, TypeError) as e:
                 raised = e
@@ -173,11 +204,13 @@ def execute_factory(cfg):
                 raised = e
                 if last:
                     err = dict(msg=f"{op}: {type(e).__name__}: {e}", signature=dict(kind="oracle", what="internal_error"))
+            if raised is None and appended is not None:
+                regs.append(appended)
             if last and err is None:
-                if exp_ok and raised is not None:
+                if exp == "ok" and raised is not None:
                     err = dict(msg=f"{op} was refused ({type(raised).__name__}: {str(raised)[:100]}) but is valid",
                                signature=dict(kind="oracle", what="valid_refused"))
-                elif not exp_ok and raised is None:
+                elif exp == "refuse" and raised is None:
                     err = dict(msg=f"{op} was accepted but must be refused (frozen={frozen})",
                                signature=dict(kind="oracle", what="invalid_accepted"))
         # ---- observation: the real memory map (as_memory_map on the real object) --------------------------
@@ -196,8 +229,9 @@ def execute_factory(cfg):
                 cms.pop().__exit__(None, None, None)
             except Exception:
                 pass
-        canon = (None if got is None else tuple(got), tuple(scopes), frozen)
-        if err is None:
+        # (the cursor is part of the key: the same layout reached in another insertion order continues differently)
+        canon = (None if got is None else tuple(got), tuple(scopes), frozen, unknown, ref_cursor(cfg, regs) if got is not None else None)
+        if err is None and not unknown:
             if got is None and want is not None:
                 err = dict(msg=f"as_memory_map() refused a valid layout; expected {want}", signature=dict(kind="oracle", what="layout_refused"))
             elif got is not None and want is None:
